@@ -55,6 +55,9 @@ pub trait L: Sized + Clone + Eq + Ord + Hash + Display + LowerHex + Binary {
     fn from_hex_(n: usize, s: &str) -> Result<Self, ()>;
     fn verif_next_(&mut self) -> bool;
     fn all_functions_(n: usize) -> Box<dyn Iterator<Item = Self>>;
+    /// conversion from a dynamic `Lut` into this type (`TryFrom<Lut>` for the static types, the
+    /// identity for `Lut` itself when the size is `n`); `None` = `Err`
+    fn conv_from_dyn(n: usize, src: Lut) -> Option<Self>;
 }
 
 macro_rules! common_methods {
@@ -144,21 +147,29 @@ macro_rules! common_methods {
                     a ^= b;
                     a
                 }
-                (0, _) => {
+                (0, 7) => {
                     let mut a = a;
                     a &= &b;
                     a
                 }
-                (1, _) => {
+                (1, 7) => {
                     let mut a = a;
                     a |= &b;
                     a
                 }
-                (_, _) => {
+                (_, 7) => {
                     let mut a = a;
                     a ^= &b;
                     a
                 }
+                // forms 8, 9: both operands are the SAME object when the two values are equal
+                // (borrowed op borrowed, and the named method on itself); otherwise as forms 4, 0
+                (0, 8) => if a == b { &a & &a } else { &a & &b },
+                (1, 8) => if a == b { &a | &a } else { &a | &b },
+                (_, 8) => if a == b { &a ^ &a } else { &a ^ &b },
+                (0, _) => if a == b { a.and(&a) } else { a.and(&b) },
+                (1, _) => if a == b { a.or(&a) } else { a.or(&b) },
+                (_, _) => if a == b { a.xor(&a) } else { a.xor(&b) },
             }
         }
         fn flip_ip(&mut self, i: usize) {
@@ -220,6 +231,13 @@ impl L for Lut {
     fn from_blocks_n(n: usize, b: &[u64]) -> Self {
         Lut::from_blocks(n, b)
     }
+    fn conv_from_dyn(n: usize, src: Lut) -> Option<Self> {
+        if src.num_vars() == n {
+            Some(src)
+        } else {
+            None
+        }
+    }
     fn zero_n(n: usize) -> Self {
         Lut::zero(n)
     }
@@ -274,6 +292,9 @@ macro_rules! impl_static {
             }
             fn from_blocks_n(_n: usize, b: &[u64]) -> Self {
                 <$t>::from_blocks(b)
+            }
+            fn conv_from_dyn(_n: usize, src: Lut) -> Option<Self> {
+                <$t>::try_from(src).ok()
             }
             fn zero_n(_n: usize) -> Self {
                 <$t>::zero()
